@@ -49,6 +49,7 @@ func C13(c *Ctx) {
 	r.Rule("C13-k", "a loop that runs while a local list or string is not empty (len(x) > 0, x != \"\") makes x shorter on every path round the loop: x = x[c:], x = x[:len(x)-c], the tail of strings.Cut, in the body or the post statement; a list re-read from elsewhere is no progress argument (the tool terminates on every argument list and grammar text)")
 	r.Rule("C13-l", "the nullable pass remembers completed visits: an entry test of Rule.NullableVisit reads a field that stays set after the visit (a mark that is cleared on the way out only cuts cycles; a rule reached over k paths is then analysed k times, 2^n for a chain of n doubling rules)")
 	r.Rule("C13-m", "a recursive search over the first-graph marks the vertices it has finished in a set shared by all branches; a closure that recurses into every successor and is cut only by the path it carries enumerates every simple path (more than n! for n rules that all start with each other)")
+	r.Rule("C13-n", "every index or slice bound of the form v-k in the generator (k a positive literal, v not a length) is dominated by a fact v >= k: a conjunct to its left, an enclosing if / else / case / loop condition, an early exit `if v < k { … }`, or v is the counter of an enclosing loop that starts at c >= k and only grows - with no assignment to v in between; a value clamped from above only, or a column reported by the parser runtime (0 for a line break), proves nothing")
 	r.Rule("C13-c", "main passes Recover(!*noRecoverFlag) to ParseReader")
 
 	g := c.G()
@@ -105,6 +106,7 @@ func C13(c *Ctx) {
 	c13Hangs(c, g)
 	c13NilMaps(c, g)
 	c13ConstIndex(c, g)
+	c13SubtractedSubscripts(c, g)
 	c13Exit(c, g)
 	if c.Thorough() {
 		c13CrossRef(c, g)
